@@ -59,6 +59,21 @@ class CallLog:
                 raise
 
         CsvPath._consider_line = consider
+        # ... or one that is raised when a matched line is handed to the caller (CsvPath.limit_collection, outside _consider_line)
+        inner_lc = CsvPath.limit_collection
+        self._orig["limit_collection"] = inner_lc
+
+        def limit_collection(p_self, line):
+            try:
+                return inner_lc(p_self, line)
+            except Exception:
+                if getattr(p_self, "_verif_member", None) is not None and not any(c["ev"] == "abort" for c in log.calls):
+                    log.calls.append({"ev": "abort", "m": 0})
+                    log.abort_member = p_self._verif_member + 1
+                    log.abort_line = p_self.line_monitor.physical_line_number
+                raise
+
+        CsvPath.limit_collection = limit_collection
         # CsvPaths.stop_all(): the cross-path signal, raised by the member that is considering a line (Archive!SignalStopAll)
         from csvpath import CsvPaths
         orig_stop_all = CsvPaths.stop_all
@@ -83,6 +98,8 @@ class CallLog:
                 CsvPath._consider_line = orig
             elif name == "stop_all":
                 CsvPaths.stop_all = orig
+            elif name == "limit_collection":
+                CsvPath.limit_collection = orig
             else:
                 setattr(ResultsManager, name, orig)
         self._orig = {}
